@@ -301,5 +301,23 @@ func RemoveAll(def Definition, repo repository.ClockedRepo) error {
 			return err
 		}
 	}
+
+	// also remove what has been fetched from a remote without being merged locally
+	remotes, err := repo.GetRemotes()
+	if err != nil {
+		return err
+	}
+	for remote := range remotes {
+		refs, err := repo.ListRefs(fmt.Sprintf("refs/remotes/%s/%s/", remote, def.Namespace))
+		if err != nil {
+			return err
+		}
+		for _, ref := range refs {
+			err = repo.RemoveRef(ref)
+			if err != nil {
+				return err
+			}
+		}
+	}
 	return nil
 }
